@@ -85,7 +85,7 @@ def build_job(group, cases, workdir):
     os.makedirs(workdir, exist_ok=True)
     if fmt == "sdl":
         path = os.path.join(workdir, "schema_%s.graphql" % pos)
-        vlib.write_if_changed(path, render.sdl(schema))
+        vlib.write_if_changed(path, render.sdl(schema, declare_builtins=True))
     else:
         path = os.path.join(workdir, "schema_%s.json" % pos)
         vlib.write_if_changed(path, render.introspection_json(schema))
